@@ -311,6 +311,16 @@ func (i *IRCServer) deleteSessionLocked(s *Session, msgid uint64) {
 		i.maybeDeleteChannelLocked(c)
 	}
 	delete(i.nicks, NickToLower(s.Nick))
+	if s.Server {
+		// The services link is gone: stop addressing messages to it.
+		remaining := make([]uint64, 0, len(i.serverSessions))
+		for _, serverid := range i.serverSessions {
+			if serverid != s.Id.Id {
+				remaining = append(remaining, serverid)
+			}
+		}
+		i.serverSessions = remaining
+	}
 	// Instead of deleting the session here, we defer that to SendMessages, as
 	// SendMessages calls the Interesting function of each reply (such as a
 	// QUIT reply) and that function might still need access to the session to
